@@ -132,3 +132,30 @@ Theorem C15_first_failing_step_from_text : forall cfg parse_float regex_ok ffun 
             end.
 Proof. exact name_path_error. Qed.
 Print Assumptions C15_first_failing_step_from_text.
+
+(* The same for paths of name steps AND index steps `[n]` (ErrSteps.v; n in decimal, negative counts from the end): the first step
+   that cannot be taken is named as written — "member did not exist" for a missing member or an index outside the array, "type
+   unmatched" with the expected container (object for a name, array for an index) and the Go type found there. *)
+From JP Require Import ErrSteps.
+Theorem C15_first_failing_step_with_indexes_from_text : forall cfg parse_float regex_ok ffun afun regex_match,
+  (forall f v w, small v -> ffun f v = Some w -> small w) ->
+  (forall f l w, Forall small l -> afun f l = Some w -> small w) ->
+  forall s r doc st, forallb step_ok (s :: r) = true -> forallb is_loc_step (s :: r) = true -> small doc -> ok st ->
+  exists t, parse_with cfg parse_float regex_ok jsonpath_grammar (chain_path (map RPlain (s :: r))) = ParseOk t /\
+            match first_fail2 doc (s :: r) with
+            | None => exists rs, fst (eval_run ffun afun regex_match t doc st) = OOk rs
+            | Some (x, None) => exists b, fst (eval_run ffun afun regex_match t doc st) = OErr (EMember b) /\ text b = step_text x
+            | Some (x, Some (ex, ty)) => exists b, fst (eval_run ffun afun regex_match t doc st) = OErr (EType b ex ty) /\ text b = step_text x
+            end.
+Proof. exact loc_path_error. Qed.
+Print Assumptions C15_first_failing_step_with_indexes_from_text.
+
+(* `$.a[2].b` on {"a":[{"b":1},7]}: the index is outside the array; `$.a[1].b`: 7 is not an object; `$.a[-2].b`: found *)
+Example C15_index_steps_example :
+  let doc := VObj [("a", VArr [VObj [("b", VNum (num_of_Z 1))]; VNum (num_of_Z 7)])]%string in
+  first_fail2 doc [SDot [97%N]; SIdx [50%N]; SDot [98%N]] = Some (SIdx [50%N], None) /\
+  first_fail2 doc [SDot [97%N]; SIdx [49%N]; SDot [98%N]] = Some (SDot [98%N], Some ("object", "float64"))%string /\
+  first_fail2 doc [SDot [97%N]; SIdx [45%N; 50%N]; SDot [98%N]] = None /\
+  first_fail2 doc [SDot [97%N]; SDot [98%N]] = Some (SDot [98%N], Some ("object", "[]interface {}"))%string /\
+  first_fail2 doc [SIdx [48%N]] = Some (SIdx [48%N], Some ("array", "map[string]interface {}"))%string.
+Proof. repeat split; vm_compute; reflexivity. Qed.
